@@ -1,5 +1,6 @@
 """C13 — Plane constructors yield the plane they describe, with a real unit normal."""
 import math
+import warnings
 from fractions import Fraction as Fr
 
 import numpy as np
@@ -8,7 +9,7 @@ from common import Kernel, call_impl, coq_bool, coq_list, fl, flv, grid_vec, q, 
 
 ID = "C13"
 N_CASES = {"quick": 360, "thorough": 4000, "search": 3000}
-SHARD = 60
+SHARD = 40
 RULE = ("seeded streams: constructor with normals unit / off by multiples of the tolerance / zero, for several "
         "direction_decimals; from_point_and_normal (grid normals, zero); from_points (grid triples, collinear, repeated); "
         "from_points_and_vector (incl. parallel); fit_from_points (generic, nearly planar, exactly planar, collinear, "
@@ -165,8 +166,8 @@ def _tilt_cs(pl, newp, cop):
 
 def gen_cases(rng, n, tier):
     cases = [{"kind": "coord"}] + _structured_cases(rng, tier)
-    full_budget = 3 if tier == "quick" else 12
-    full_exact_budget = 3 if tier == "quick" else 12
+    full_budget = 2 if tier == "quick" else 12
+    full_exact_budget = 2 if tier == "quick" else 12
     for i in range(n):
         u = rng.random()
         sc = _scale(rng, tier)
@@ -326,7 +327,8 @@ def run_impl(c):
     def go():
         k = c["kind"]
         A = _Args(as_int=bool(c.get("int")))
-        with np.errstate(all="ignore"):
+        with np.errstate(all="ignore"), warnings.catch_warnings():
+            warnings.simplefilter("ignore")
             if k == "coord":
                 return {"xy": _obs_plane(Plane.xy), "xz": _obs_plane(Plane.xz), "yz": _obs_plane(Plane.yz)}
             if k == "ctor":
@@ -343,7 +345,7 @@ def run_impl(c):
                 kw = {} if c["decimals"] is None else {"direction_decimals": c["decimals"]}
                 return _probe(Plane.from_points_and_vector(A.row(c["p1"]), A.row(c["p2"]), A.row(c["vector"]), **kw), A)
             if k.startswith("fit_"):
-                return _probe(Plane.fit_from_points(A.row(c["points"])), A)
+                return _probe(Plane.fit_from_points(A.row(np.array(c["points"], dtype=np.float64).reshape(-1, 3))), A)
             if k.startswith("tilted"):
                 pl = Plane(A.row(c["ref"]), A.row(c["normal"]))
                 return _probe(pl.tilted(A.row(c["new_point"]), A.row(c["coplanar"])), A)
@@ -513,6 +515,8 @@ def oracle(c, o):
             if o[name]["ref"] != [0, 0, 0] or o[name]["normal"] != nrm or o[name]["dtype"] != "float64":
                 return "Plane.%s is not the coordinate plane through the origin" % name
         return None
+    if k == "fit_too_few":
+        return None  # fewer than 3 points: outside the property's domain (model and code agree on LinAlgError)
     if "raise" in o and o["raise"] != "ValueError":
         return "raised %s (%s); only ValueError is allowed" % (o["raise"], o.get("msg"))
     if "raise" not in o and not o.get("stable", True):
